@@ -110,6 +110,9 @@ pub enum G {
     FoldlW(Box<G>, Box<It>),
     FoldrW(Box<It>, Box<G>),
     IterP(Box<It>),
+    /// `any_ref()` / `select_ref!` where the input kind implements `BorrowInput` (else the by-value primitive)
+    AnyRef,
+    SelectRef(Vec<u32>),
     RecVia(Box<G>, Box<G>),
     RecSkip(Box<G>, Box<G>, Box<G>, V),
     RecRetry(Box<G>, Box<G>, Box<G>),
@@ -317,6 +320,8 @@ impl<'a> Rd<'a> {
             "oneof" => G::OneOf(self.nat_list()?),
             "noneof" => G::NoneOf(self.nat_list()?),
             "select" => G::Select(self.nat_list()?),
+            "anyref" => G::AnyRef,
+            "selectref" => G::SelectRef(self.nat_list()?),
             "cnext" => G::CNext(self.nat()?),
             "ctake2" => G::CTake2(self.nat()?),
             "cnothing" => G::CNothing,
